@@ -296,12 +296,13 @@ Eval(X, ord, U, P) == EvalI(X, ord, U, P, NoInj(X))
 \* the value the sdkconfig carries for the option: "absent" when no line is written
 LineOf(c) == IF c.written THEN c.val ELSE "absent"
 
-\* `# default:` marker: no prompt at all, or no (effective) user value and, for a choice
-\* member, no user pick on its choice
+\* `# default:` marker: no prompt at all, or no (effective) user value; a choice member follows
+\* its choice: marked exactly when the choice has no user pick (a user value n of the member
+\* itself changes nothing about where its value comes from)
 Marked(X, A, U, P, n) ==
   \/ X.s[n].prompts = <<>>
-  \/ /\ (U[n] = NoVal \/ A.core[n].forced)
-     /\ (X.s[n].ch = "" \/ P[X.s[n].ch] = NoVal)
+  \/ IF X.s[n].ch = "" THEN U[n] = NoVal \/ A.core[n].forced
+                       ELSE P[X.s[n].ch] = NoVal
 
 Valuation(X, A) ==
   [i \in 1..Len(X.syms) |->
